@@ -59,3 +59,19 @@ pub(crate) fn state_tag<S: jxl_modular::Sample>(state: &crate::state::FrameRende
         ErrTaken => "ErrTaken",
     }
 }
+
+impl crate::RenderContext {
+    /// Snapshot of the state tag of every frame render handle (`"Locked"` when the handle's
+    /// mutex is held). Meant to be called at quiescent points.
+    pub fn verif_render_states(&self) -> Vec<(usize, &'static str)> {
+        fn tag<S: jxl_modular::Sample>(h: &crate::state::FrameRenderHandle<S>) -> (usize, &'static str) {
+            match h.render.try_lock() {
+                Ok(g) => (h.frame.idx, state_tag(&*g)),
+                Err(_) => (h.frame.idx, "Locked"),
+            }
+        }
+        let mut v: Vec<_> = self.renders_wide.iter().map(|h| tag(h)).collect();
+        v.extend(self.renders_narrow.iter().map(|h| tag(h)));
+        v
+    }
+}
